@@ -24,7 +24,8 @@ Record wbuf := mkw {
   widx : Z;                       (* Buffer.working_index *)
   wcur : Z;                       (* Buffer.cursor_position *)
   wdc : list (dkey * doc);        (* _document_cache: _keys order, with the cached Document *)
-  wlc : list (str * list str)     (* Document._cache.lines, per text *)
+  wlc : list (str * list str);    (* Document._cache.lines, per text *)
+  wli : list (str * list Z)       (* Document._cache.line_indexes, per text *)
 }.
 
 (* Buffer.text: self._working_lines[self.working_index] *)
@@ -36,7 +37,7 @@ Definition w_abs (w : wbuf) : buf := mkbuf (w_text w) (wcur w).
 
 (* _set_text: working_lines[working_index] = value; _set_cursor_position *)
 Definition w_commit (w : wbuf) (b : buf) : wbuf :=
-  mkw (py_update (wlines w) (widx w) (fun _ => btext b)) (widx w) (bcur b) (wdc w) (wlc w).
+  mkw (py_update (wlines w) (widx w) (fun _ => btext b)) (widx w) (bcur b) (wdc w) (wlc w) (wli w).
 
 (* ---------------------------------------------------------------------- *)
 (* FastDictCache.__getitem__ / __missing__ with get_value = Document *)
@@ -63,7 +64,7 @@ Definition dc_get (k : dkey) (dc : list (dkey * doc)) : doc * list (dkey * doc) 
 (* Buffer.document *)
 Definition w_document (w : wbuf) : doc * wbuf :=
   let '(d, dc) := dc_get (w_text w, wcur w) (wdc w) in
-  (d, mkw (wlines w) (widx w) (wcur w) dc (wlc w)).
+  (d, mkw (wlines w) (widx w) (wcur w) dc (wlc w) (wli w)).
 
 (* Document.lines: the per-text cache entry is filled on first use *)
 Fixpoint lc_find (t : str) (lc : list (str * list str)) : option (list str) :=
@@ -76,7 +77,25 @@ Definition w_doc_lines (d : doc) (w : wbuf) : list str * wbuf :=
   match lc_find (dtext d) (wlc w) with
   | Some ls => (ls, w)
   | None => let ls := split_on NL (dtext d) in
-            (ls, mkw (wlines w) (widx w) (wcur w) (wdc w) ((dtext d, ls) :: wlc w))
+            (ls, mkw (wlines w) (widx w) (wcur w) (wdc w) ((dtext d, ls) :: wlc w) (wli w))
+  end.
+
+(* Document._line_start_indexes: computed from self.lines (through the line
+   cache) on first use, then kept per text *)
+Fixpoint li_find (t : str) (li : list (str * list Z)) : option (list Z) :=
+  match li with
+  | [] => None
+  | (t', ix) :: r => if str_eqb t t' then Some ix else li_find t r
+  end.
+
+Definition w_doc_line_indexes (d : doc) (w : wbuf) : list Z * wbuf :=
+  match li_find (dtext d) (wli w) with
+  | Some ix => (ix, w)
+  | None =>
+      let '(ls, w1) := w_doc_lines d w in
+      let ix0 := 0 :: cumul ls 0 in
+      let ix := if 1 <? len ix0 then removelast ix0 else ix0 in
+      (ix, mkw (wlines w1) (widx w1) (wcur w1) (wdc w1) (wlc w1) ((dtext d, ix) :: wli w1))
   end.
 
 (* ---------------------------------------------------------------------- *)
@@ -119,21 +138,22 @@ Definition touches (b : buf) (x : xop) : list dkey :=
   match x with
   | XBase o => touches_op b o
   | XCase k a => iter_keys (case_word1 (case_F k)) (Z.to_nat a) b
+  | XReshape _ _ _ => []
   end.
 
 Definition w_touch (w : wbuf) (ks : list dkey) : wbuf :=
-  mkw (wlines w) (widx w) (wcur w) (fold_left (fun dc k => snd (dc_get k dc)) ks (wdc w)) (wlc w).
+  mkw (wlines w) (widx w) (wcur w) (fold_left (fun dc k => snd (dc_get k dc)) ks (wdc w)) (wlc w) (wli w).
 
 (* ---------------------------------------------------------------------- *)
 (* cursor_position setter on the stored state; Buffer.go_to_history *)
 Definition w_set_cursor (w : wbuf) (v : Z) : wbuf :=
-  mkw (wlines w) (widx w) (bcur (set_cursor (w_abs w) v)) (wdc w) (wlc w).
+  mkw (wlines w) (widx w) (bcur (set_cursor (w_abs w) v)) (wdc w) (wlc w) (wli w).
 
 Definition w_go_to_history (w : wbuf) (i : Z) : wbuf :=
   if (0 <=? i) && (i <? len (wlines w)) then
     (* working_index setter: only when it changes; cursor_position = 0 *)
     let w1 := if widx w =? i then w
-              else w_set_cursor (mkw (wlines w) i (wcur w) (wdc w) (wlc w)) 0 in
+              else w_set_cursor (mkw (wlines w) i (wcur w) (wdc w) (wlc w) (wli w)) 0 in
     w_set_cursor w1 (len (w_text w1))
   else w.
 
@@ -144,10 +164,11 @@ Inductive wop :=
 (* One step: (status, returned string, new stored state).  The state is the
    one after the harness has looked at Buffer.document and its lines (which
    is what every renderer pass does as well). *)
-Definition w_observe (w : wbuf) : (doc * list str) * wbuf :=
+Definition w_observe (w : wbuf) : (doc * list str * list Z) * wbuf :=
   let '(d, w1) := w_document w in
   let '(ls, w2) := w_doc_lines d w1 in
-  ((d, ls), w2).
+  let '(ix, w3) := w_doc_line_indexes d w2 in
+  ((d, ls, ix), w3).
 
 Definition wstep (w : wbuf) (o : wop) : (Z * str) * wbuf :=
   match o with
@@ -167,10 +188,11 @@ Definition dec_wop (s : sx) : option wop :=
   | _ => match dec_xop s with Some x => Some (WX x) | None => None end
   end.
 
-Definition enc_wres (st : Z) (ret : str) (v : doc * list str) (w : wbuf) : sx :=
+Definition enc_wres (st : Z) (ret : str) (v : doc * list str * list Z) (w : wbuf) : sx :=
   L [A st; L (map sx_str (wlines w)); A (widx w); A (wcur w); sx_str ret;
      L (map (fun e => L [sx_str (fst (fst e)); A (snd (fst e))]) (wdc w));
-     L [sx_str (dtext (fst v)); A (dcur (fst v)); L (map sx_str (snd v))]].
+     L [sx_str (dtext (fst (fst v))); A (dcur (fst (fst v))); L (map sx_str (snd (fst v)));
+        L (map A (snd v))]].
 
 Fixpoint run_wops (w : wbuf) (ops : list wop) : list sx :=
   match ops with
@@ -187,7 +209,7 @@ Definition run_C01w (c : sx) : sx :=
   | L [L ls; A i; A cur; L ops] =>
       match map_opt as_str ls, map_opt dec_wop ops with
       | Some ls', Some ops' =>
-          let w := mkw ls' i cur [] [] in
+          let w := mkw ls' i cur [] [] [] in
           if (0 <=? i) && (i <? len ls') && (0 <=? cur) && (cur <=? len (w_text w))
           then L (run_wops w ops') else bad_case
       | _, _ => bad_case
